@@ -19,10 +19,13 @@ RULE = (
     "flat == grouped (concatenated) == parse-to-graph; across integrations the results correspond term for term (IRI "
     "string, blank-node label, lexical form, language, datatype, graph name, default graph). (b) the same statement "
     "sequence and the same explicit options are serialised by both integrations through stream_frames (TripleStream, "
-    "QuadStream), flat_stream_to_frames and GraphStream.graph() driven identically: the bytes must be identical. "
+    "QuadStream), flat_stream_to_frames, GraphStream.graph() driven identically, and grouped_stream_to_frames over 2-3 "
+    "one-statement containers that each carry their own namespace bindings (declarations on or off): the bytes must be identical. "
     "non-trivial = case with a named graph or >=2 frames, together with a language or typed literal or an IRI without "
     "separator; distinct by case hash."
 )
+SAFE_PREFIXES = ["ex", "a", "ns2", "x1", "", "p_q"]
+
 ASSUMPTIONS = [
     "byte identity is not demanded for rdflib container inputs (iteration order is rdflib's) nor for graphs_stream_frames "
     "fed by a quad generator (generic groups runs, rdflib builds a Dataset)",
@@ -123,12 +126,45 @@ def bytes_case(draw):
     phys = draw(st.sampled_from(["TRIPLES", "QUADS", "GRAPHS"]))
     arity = 3 if phys == "TRIPLES" else 4
     stmts = canon_stmts(draw(gen.statement_seq(arity=arity, mode="rdflib", max_len=12, min_len=1)))
-    entry = "graph" if phys == "GRAPHS" else draw(st.sampled_from(["stream_frames", "flat_stream_to_frames"]))
+    entry = "graph" if phys == "GRAPHS" else draw(st.sampled_from(["stream_frames", "flat_stream_to_frames", "grouped_sources"]))
+    if entry == "grouped_sources":
+        # several containers through ONE stream (grouped_stream_to_frames); each holds one statement (so that container
+        # iteration order cannot matter) and its own namespace bindings
+        sources = []
+        for _ in range(draw(st.integers(2, 3))):
+            stmt = canon_stmts(draw(gen.statement_seq(arity=arity, mode="rdflib", max_len=1, min_len=1)))
+            binds, up, un = [], set(), set()
+            for _ in range(draw(st.integers(0, 2))):
+                pfx, ns = draw(st.sampled_from(SAFE_PREFIXES)), draw(scen.ns_iris)
+                if pfx not in up and ns and ns not in un:
+                    up.add(pfx), un.add(ns), binds.append([pfx, ns])
+            sources.append({"statements": stmt, "bindings": binds})
+        allst = [s for src in sources for s in src["statements"]]
+        return {"kind": "bytes", "phys": phys, "statements": allst, "sources": sources, "entry": entry,
+                "logical": draw(st.sampled_from(scen.GROUPED_FOR[phys] + [1 if phys == "TRIPLES" else 2])), "delimited": True,
+                "frame_size": draw(gen.frame_sizes), "preset": draw(gen.preset_for(allst, allow_zero_prefix=False)),
+                "params": {"generalized": False, "rdf_star": False, "stream_name": draw(gen.stream_names),
+                           "namespace_declarations": draw(st.integers(0, 3)) != 0}}
     return {"kind": "bytes", "phys": phys, "statements": stmts, "entry": entry, "logical": 1 if phys == "TRIPLES" else 2,
             "delimited": draw(st.integers(0, 3)) != 0 if entry == "stream_frames" else True,
             "frame_size": draw(gen.frame_sizes), "preset": draw(gen.preset_for(stmts)),
             "params": {"generalized": False, "rdf_star": False, "stream_name": draw(gen.stream_names),
                        "namespace_declarations": draw(st.booleans())}}
+
+
+def rdflib_source(src, phys):
+    import rdflib
+
+    g = rdflib.Graph(bind_namespaces="none") if phys == "TRIPLES" else rdflib.Dataset()
+    for st_ in src["statements"]:
+        trip = tuple(T.to_rdflib(t) for t in st_[:3])
+        if phys == "TRIPLES" or st_[3][0] == "default":
+            g.add(trip)
+        else:
+            g.add((*trip, g.graph(T.to_rdflib(st_[3]))))
+    for pfx, ns in src["bindings"]:
+        g.bind(pfx, rdflib.URIRef(ns), override=True, replace=True)
+    return g
 
 
 def serialise(case, integ):
@@ -137,6 +173,15 @@ def serialise(case, integ):
         from pyjelly.integrations.generic import serialize as ser
     else:
         from pyjelly.integrations.rdflib import serialize as ser
+    if case["entry"] == "grouped_sources":
+        rconts = [rdflib_source(src, case["phys"]) for src in case["sources"]]
+        if integ == "generic":
+            # the generic sinks are bound to exactly what the rdflib containers report (rdflib adds its own defaults)
+            conts = [pyj.generic_sink(src["statements"], [[p_, str(ns)] for p_, ns in rc.namespaces()])
+                     for src, rc in zip(case["sources"], rconts)]
+        else:
+            conts = rconts
+        return pyj.frames_to_bytes(ser.grouped_stream_to_frames((c for c in conts), pyj.make_options(case)), True)
     if case["entry"] == "stream_frames":
         stream = pyj.make_stream(case, integ)
         return pyj.frames_to_bytes(ser.stream_frames(stream, (s for s in stmts)), case["delimited"])
@@ -170,7 +215,11 @@ def body_bytes(case, acc):
         special = any(t[0] == "lit" and (t[2] or t[3]) for s in stmts for t in s) or any(
             t[0] == "iri" and "/" not in t[1] and "#" not in t[1] for s in stmts for t in s)
         named = any(len(s) == 4 and s[3][0] != "default" for s in stmts)
-        acc.case(case, special and (named or len(stmts) > case["frame_size"]), ["bytes_" + case["entry"], "phys_" + case["phys"]])
+        labels = ["bytes_" + case["entry"], "phys_" + case["phys"]]
+        if case["entry"] == "grouped_sources" and case["params"]["namespace_declarations"] and any(
+                src["bindings"] for src in case["sources"][1:]):
+            labels.append("later_source_declares_namespaces")
+        acc.case(case, special and (named or len(stmts) > case["frame_size"]), labels)
     if a != b:
         k = next((i for i, (x, y) in enumerate(zip(a, b)) if x != y), min(len(a), len(b)))
         return Violation("C15:serializers-not-byte-identical", f"{case['entry']} {case['phys']}: outputs differ at byte {k} "
